@@ -106,7 +106,8 @@ pub fn value(rng: &mut Rng, p: &Profile, limit: u32) -> Vec<u8> {
         2 => vec![0xff, 0xfe, 0x80, 0x00],
         3 => {
             // large relative to the (small) configured limit
-            let l = rng.range(limit as u64 / 2, limit as u64 - 300.min(limit as u64 / 2)) as usize;
+            // (under the large limits only one time in eight: the dumps behind every request carry these values)
+            let l = if limit > 8192 && !rng.chance(1, 8) { rng.range(1500, 4000) as usize } else { rng.range(limit as u64 / 2, limit as u64 - 300.min(limit as u64 / 2)) as usize };
             rng.bytes(l)
         }
         _ => {
